@@ -242,10 +242,16 @@ Definition delta_line (m : padmode) (v : Q) (o w : nat) (x : list Q) : list (lis
   let xp := pad m v (w * o) x in
   map (conv1d xp) (delta_filters o w).
 
-(* movedim(x, -1, dim) as the chain of adjacent transpositions (as in _compat.movedim) *)
+(* movedim(x, -1, dim) as the chain of adjacent transpositions of _compat.movedim:
+   for s in range(source, dest, -1): a = a.transpose(s - 1, s) *)
+Fixpoint move_left (k p : nat) (x : tensor) : tensor :=
+  match k with
+  | O => x
+  | S k' => move_left k' (p - 1) (transpose x (p - 1) p)
+  end.
+
 Definition movedim_last (x : tensor) (dm : nat) : tensor :=
-  let D := length (shape x) in
-  fold_left (fun a s => transpose a (s - 1) s) (rev (seq (dm + 1) (D - 1 - dm))) x.
+  let D := length (shape x) in move_left (D - 1 - dm) (D - 1) x.
 
 (* flatten(dm, dm + 1) *)
 Definition merge_dims (sh : list nat) (dm : nat) : list nat :=
